@@ -14,6 +14,9 @@ use crate::ip::IpVersionAddrIter;
 pub struct Dns {
     addrs: IpVersionAddrIter,
     names: IndexMap<String, IpAddr>,
+    /// Addresses of hosts that were registered by literal address: they are
+    /// taken, the allocator must not hand them to a name.
+    reserved: Vec<IpAddr>,
 }
 
 /// Converts or resolves to an [`IpAddr`].
@@ -39,6 +42,14 @@ impl Dns {
         Dns {
             addrs,
             names: IndexMap::new(),
+            reserved: Vec::new(),
+        }
+    }
+
+    /// `addr` belongs to a registered host: never allocate it to a name.
+    pub(crate) fn reserve(&mut self, addr: IpAddr) {
+        if !self.names.values().any(|a| *a == addr) && !self.reserved.contains(&addr) {
+            self.reserved.push(addr);
         }
     }
 
@@ -70,9 +81,12 @@ impl ToIpAddr for &str {
             return ipaddr;
         }
 
-        *dns.names
-            .entry(self.to_string())
-            .or_insert_with(|| dns.addrs.next())
+        *dns.names.entry(self.to_string()).or_insert_with(|| loop {
+            let addr = dns.addrs.next();
+            if !dns.reserved.contains(&addr) {
+                break addr;
+            }
+        })
     }
 }
 
